@@ -36,6 +36,8 @@ def _specs(method):
 
 MODELS = [('pit', 'pit1d', {}), ('pit', 'pit2d', {}), ('pit', 'pit1d_frozen', {'discrete_cost': True}),
           ('mps', 'mps_a', {}), ('mps', 'mps_b', {'per_channel': True}),
+          # non-default sampling options given at construction (sampling disabled = "use the saved coefficients"; Gumbel)
+          ('mps', 'mps_a', {'disable_sampling': True}), ('mps', 'mps_b', {'gumbel_softmax': True}),
           ('sn', 'sn_a', {}), ('sn', 'sn_twice', {}), ('sn', 'sn_gumbel', {})]
 
 
@@ -44,7 +46,7 @@ def cases(tier, seed):
     for method, name, kw in MODELS:
         for train in (True, False):
             for full in (False, True):
-                if tier == 'quick' and full and name in ('pit2d', 'pit1d_frozen', 'mps_b', 'sn_twice'):
+                if tier == 'quick' and full and (name in ('pit2d', 'pit1d_frozen', 'mps_b', 'sn_twice') or kw.get('disable_sampling')):
                     continue
                 out.append({'method': method, 'model': name, 'kw': kw, 'train': train, 'full_cost': full, 'tier': tier})
     return out
@@ -158,11 +160,49 @@ def _probe(nas, x, st, dspec, other, with_export=True):
 
 
 def _run_history(case, seed, hist):
-    nas, x, dspec, other = _make(case, seed)
-    st = {'nfwd': 0, 'spec': 'orig'}
-    for op in hist:
-        _apply(nas, x, op, st, dspec, other)
-    return _probe(nas, x, st, dspec, other, not case['kw'].get('per_channel')), st
+    """Two independent replays of the history, each on a fresh model:
+    probe A makes NO observer call of its own before the seeded forward and the training step (so a latent side effect of an observer
+    in the history - one that only shows at the next forward - is not masked by the probe's own export / summary / cost reads);
+    probe B reads every observer (costs, summary, two exports) and then continues as well."""
+    obs = {}
+    st = None
+    for which in ('A', 'B'):
+        nas, x, dspec, other = _make(case, seed)
+        st = {'nfwd': 0, 'spec': 'orig'}
+        for op in hist:
+            _apply(nas, x, op, st, dspec, other)
+        if which == 'A':
+            o = _probe_continue(nas, x, st)
+        else:
+            o = _probe(nas, x, st, dspec, other, not case['kw'].get('per_channel'))
+        obs.update({f'{which}.{k}': v for k, v in o.items()})
+    obs['export_repeat_equal'] = obs.pop('B.export_repeat_equal')
+    obs['flags_after_observers'] = obs.pop('B.flags_after_observers')
+    return obs, st
+
+
+def _probe_continue(nas, x, st):
+    obs = {'flags': F.flags(nas), 'sd': F.sd_hash(nas)}
+    torch.manual_seed(424242)
+    y = nas(x)
+    obs['out'] = F.tensor_hash(y)
+    params = [p for p in nas.parameters() if p.requires_grad]
+    for p in params:
+        p.grad = None
+    if st['spec'] == 'orig':
+        loss = y.sum() + 1e-3 * (nas.get_cost('a') + nas.get_cost('b'))
+    else:
+        loss = y.sum() + 1e-3 * nas.cost
+    loss.backward()
+    with torch.no_grad():
+        for p in params:
+            if p.grad is not None:
+                p -= 0.01 * p.grad
+    obs['sd_after_step'] = F.sd_hash(nas)
+    torch.manual_seed(424243)
+    with torch.no_grad():
+        obs['out_after_step'] = F.tensor_hash(nas(x))
+    return obs
 
 
 def _mode(hist, train):
